@@ -374,12 +374,18 @@ impl Circle2 {
             return result;
         }
 
+        let r_diff = (self.ball.radius - other.ball.radius).abs();
+        if d < r_diff - TOL {
+            // One circle is inside the other
+            return result;
+        }
+
         let v = (other.center - self.center).normalize();
         let a = (self.ball.radius.powi(2) - other.ball.radius.powi(2) + d.powi(2)) / (2.0 * d);
         let p2 = self.center + (v * a);
 
-        if (d - r_sum).abs() < TOL {
-            // Circles are touching
+        if (d - r_sum).abs() < TOL || (d - r_diff).abs() < TOL {
+            // Circles are touching, from the outside or from the inside
             result.push(p2);
             return result;
         }
